@@ -14,7 +14,9 @@ def configOp : Tok → String
      | some m =>
        let sc : Scheme := if scheme = "http" then .http else if scheme = "https" then .https
                           else if scheme = "none" then .absent else .other
-       let sv : Option Services := if svc = "ok" then some .ok else if (svc.toList.take 7) = "unknown".toList then some .unknown
+       let sv : Option Services := if (svc.toList.take 2) = "ok".toList then some .ok
+                                   else if (svc.toList.take 3) = "dup".toList then some .duplicate
+                                   else if (svc.toList.take 7) = "unknown".toList then some .unknown
                                    else if svc = "empty" then some .empty else none
        (match sv with
         | some sv =>
